@@ -185,7 +185,12 @@ fn gen_shape(src: &mut Src) -> MShape {
         1 => {
             // (down to the degenerate lists: a point is moved like any other, whatever list holds it)
             let n = if src.prob(1, 8) { src.usize_in(1, 2) } else { src.usize_in(3, 6) };
-            MShape::Poly((0..n).map(|_| p(src)).collect())
+            let mut v: Vec<P> = (0..n).map(|_| p(src)).collect();
+            // (an outline may repeat its first vertex at the end: one more point to move)
+            if n >= 3 && src.prob(1, 5) {
+                v.push(v[0]);
+            }
+            MShape::Poly(v)
         }
         _ => {
             let n = if src.prob(1, 6) { 1 } else { src.usize_in(2, 5) };
@@ -248,7 +253,9 @@ fn flatten_case(src: &mut Src, ctx: &mut Ctx) -> Result<(), String> {
         };
         let mut layout = raw::Layout { name, ..Default::default() };
         for (l, s) in &c.shapes {
-            layout.elems.push(raw::Element { net: None, layer: keys[*l], purpose: raw::LayerPurpose::Drawing, inner: s.to_raw() });
+            // (a third of the shapes carry a net name, by content: where a shape lands does not depend on it)
+            let net = match (l + layout.elems.len() + i) % 3 { 0 => Some(format!("n{}", l)), _ => None };
+            layout.elems.push(raw::Element { net, layer: keys[*l], purpose: raw::LayerPurpose::Drawing, inner: s.to_raw() });
         }
         for (k, (t, pl)) in c.insts.iter().enumerate() {
             // the same orientation spelled with whole turns added or taken away (-90 for 270, 450 for 90, -360 for 0), by content
